@@ -2164,7 +2164,7 @@ def eqn2_helpers(e, bitslice=False, widening=False):
             if e.op.symbol == OP_NEQ and e.l._is_ext:
                 return bit1
         # if e:= (l [|*/] 1) then e:= l
-        elif e.r.value == 1 and e.op.symbol in (OP_MUL, OP_MUL2, OP_DIV):
+        elif e.r.value == 1 and e.op.symbol in (OP_MUL, OP_DIV):
             return e.l
         # if e:= (l [>> <<] cst) with cst>=size then e:= 0
         elif e.op.symbol in (OP_LSL, OP_LSR) and e.r.value >= e.l.size:
